@@ -200,6 +200,16 @@ impl Api {
             ["memcheck"] => self.memcheck(),
             ["wfcheck"] => self.wfcheck(),
             ["graphdump"] => self.graphdump(),
+            ["updclear"] => { let _ = sodium_rust::verif::take_update_log(); ok() }
+            ["updlog"] => {
+                // L-sched-api: the update closures the scheduler ran since `updclear` (in order) and the nodes it found changed
+                let log = sodium_rust::verif::take_update_log();
+                let upd: Vec<String> = log.iter().filter(|e| e.0 == b'U').map(|e| e.1.to_string()).collect();
+                let mut chg: Vec<u32> = log.iter().filter(|e| e.0 == b'C').map(|e| e.1).collect();
+                chg.sort(); chg.dedup();
+                let chg: Vec<String> = chg.iter().map(|x| x.to_string()).collect();
+                format!("upd={} chg={}", upd.join(","), chg.join(","))
+            }
             ["nodes"] => format!("nodes={}", self.ctx.impl_.node_count()),
             ["leakcheck"] => {
                 for (_, h) in self.h.iter() { if let H::L(l) = h { l.unlisten(); } }
